@@ -53,6 +53,190 @@ func main() {
 	fmt.Println("].")
 	genPanicPath(repo)
 	genKeys(repo)
+	genInit(repo)
+}
+
+// genInit: module (re-)initialisation.
+// (a) every method / field path that x/epochs InitGenesis (and the package-level helpers it hands the keeper to) calls
+// on the keeper, in order of first appearance ("AddEpochInfo", "Epochs.Insert", …);
+// (b) whether AddEpochInfo refuses a stored identifier BEFORE it writes: a top-level `if` whose header looks the
+// identifier up (EpochExists / Epochs.Get / Epochs.Has) and whose body ends in a `return <non-nil>` precedes the first
+// statement that writes to the store, and no statement before it writes;
+// (c) what AppModule.InitGenesis does with the error of InitGenesis ("discarded" | "used" | "no call").
+func genInit(repo string) {
+	files := ParseDir(repo + "/x/epochs")
+	funcs := map[string]*ast.FuncDecl{}
+	for _, fl := range files {
+		for _, d := range fl.F.Decls {
+			if fd, ok := d.(*ast.FuncDecl); ok && fd.Body != nil && fd.Recv == nil {
+				funcs[fd.Name.Name] = fd
+			}
+		}
+	}
+	var calls []string
+	seen := map[string]bool{}
+	visited := map[string]bool{}
+	root := func(e ast.Expr) (string, []string) { // selector chain a.b.c -> ("a", ["b","c"])
+		var path []string
+		for {
+			switch x := e.(type) {
+			case *ast.SelectorExpr:
+				path = append([]string{x.Sel.Name}, path...)
+				e = x.X
+			case *ast.ParenExpr:
+				e = x.X
+			case *ast.StarExpr:
+				e = x.X
+			case *ast.UnaryExpr:
+				e = x.X
+			case *ast.Ident:
+				return x.Name, path
+			default:
+				return "", nil
+			}
+		}
+	}
+	var walk func(fd *ast.FuncDecl, kp string)
+	walk = func(fd *ast.FuncDecl, kp string) {
+		if visited[fd.Name.Name+"/"+kp] {
+			return
+		}
+		visited[fd.Name.Name+"/"+kp] = true
+		ast.Inspect(fd.Body, func(n ast.Node) bool {
+			c, ok := n.(*ast.CallExpr)
+			if !ok {
+				return true
+			}
+			if r, path := root(c.Fun); r == kp && len(path) > 0 {
+				name := strings.Join(path, ".")
+				if !seen[name] {
+					seen[name] = true
+					calls = append(calls, name)
+				}
+			}
+			if id, ok := c.Fun.(*ast.Ident); ok {
+				if callee, ok := funcs[id.Name]; ok {
+					var params []string
+					for _, f := range callee.Type.Params.List {
+						for _, nm := range f.Names {
+							params = append(params, nm.Name)
+						}
+					}
+					for i, a := range c.Args {
+						if r, path := root(a); r == kp && len(path) == 0 && i < len(params) {
+							walk(callee, params[i])
+						}
+					}
+				}
+			}
+			return true
+		})
+	}
+	if fd, ok := funcs["InitGenesis"]; ok {
+		for _, f := range fd.Type.Params.List {
+			if strings.HasSuffix(Nospace(f.Type), "Keeper") {
+				for _, nm := range f.Names {
+					walk(fd, nm.Name)
+				}
+			}
+		}
+	}
+	fmt.Print("Definition initgenesis_keeper_calls : list string := [")
+	for i, c := range calls {
+		if i > 0 {
+			fmt.Print("; ")
+		}
+		fmt.Print(CoqString(c))
+	}
+	fmt.Println("].")
+
+	// (b)
+	writes := func(n ast.Node) bool {
+		w := false
+		ast.Inspect(n, func(m ast.Node) bool {
+			if c, ok := m.(*ast.CallExpr); ok {
+				f := Nospace(c.Fun)
+				if strings.HasSuffix(f, ".Insert") || strings.HasSuffix(f, ".Set") || strings.HasSuffix(f, ".Delete") {
+					w = true
+				}
+			}
+			return true
+		})
+		return w
+	}
+	guard := false
+	for _, fl := range ParseDir(repo + "/x/epochs/keeper") {
+		for _, d := range fl.F.Decls {
+			fd, ok := d.(*ast.FuncDecl)
+			if !ok || fd.Body == nil || fd.Name.Name != "AddEpochInfo" {
+				continue
+			}
+			for _, st := range fd.Body.List {
+				if is, ok := st.(*ast.IfStmt); ok && is.Else == nil {
+					hdr := Nospace(is.Cond)
+					if is.Init != nil {
+						hdr = Nospace(is.Init) + ";" + hdr
+					}
+					looks := strings.Contains(hdr, "EpochExists(") || strings.Contains(hdr, ".Epochs.Get(") || strings.Contains(hdr, ".Epochs.Has(")
+					if looks && !strings.HasPrefix(Nospace(is.Cond), "!") && len(is.Body.List) > 0 && !writes(is) {
+						if rs, ok := is.Body.List[len(is.Body.List)-1].(*ast.ReturnStmt); ok && len(rs.Results) == 1 && Nospace(rs.Results[0]) != "nil" {
+							guard = true
+							break
+						}
+					}
+				}
+				if writes(st) {
+					break
+				}
+			}
+		}
+	}
+	fmt.Printf("Definition add_exists_guard_before_insert : bool := %s.\n", CoqBool(guard))
+
+	// (c)
+	use := "no call"
+	for _, fl := range files {
+		for _, d := range fl.F.Decls {
+			fd, ok := d.(*ast.FuncDecl)
+			if !ok || fd.Body == nil || fd.Recv == nil || fd.Name.Name != "InitGenesis" || len(fd.Recv.List) != 1 ||
+				!strings.HasSuffix(Nospace(fd.Recv.List[0].Type), "AppModule") {
+				continue
+			}
+			isCall := func(e ast.Expr) bool {
+				c, ok := e.(*ast.CallExpr)
+				if !ok {
+					return false
+				}
+				id, ok := c.Fun.(*ast.Ident)
+				return ok && id.Name == "InitGenesis"
+			}
+			ast.Inspect(fd.Body, func(n ast.Node) bool {
+				switch x := n.(type) {
+				case *ast.ExprStmt:
+					if isCall(x.X) {
+						use = "discarded"
+						return false
+					}
+				case *ast.AssignStmt:
+					if len(x.Rhs) == 1 && isCall(x.Rhs[0]) {
+						use = "discarded"
+						for _, l := range x.Lhs {
+							if Nospace(l) != "_" {
+								use = "used"
+							}
+						}
+						return false
+					}
+				case *ast.CallExpr:
+					if isCall(x) {
+						use = "used"
+					}
+				}
+				return true
+			})
+		}
+	}
+	fmt.Printf("Definition appmodule_initgenesis_error : string := %s.\n", CoqString(use))
 }
 
 // genKeys: under which key expression AddEpochInfo checks existence and inserts, and under which BeginBlocker writes
